@@ -24,8 +24,9 @@ LEVEL_TEXT = (
 )
 LEVEL_NOTE = "trusted: rustc MIR, exporter, std axioms; std::io::Write::write_all's contract (writes everything or errors, retrying Interrupted)"
 EXPLANATION = (
-    "V1 write_bytes: reserve(len(buf)) precedes copy_from_slice into self.buf[end..end+len(buf)], then end += len(buf) (same term); "
-    "reserve flushes iff end + size > capacity. V1b every call of write_bytes passes a one-byte array, a tail of a [u8; BASE_10_LEN] "
+    "V1 write_bytes (private helpers and flush inlined, one path = one append): exactly one copy_from_slice into self.buf[a..a+len] "
+    "with a = the current fill level, end + len <= capacity entailed at the copy from the path facts (invariant end <= capacity and "
+    "the callers' bound assumed), and end := a + len afterwards. V1b every call of write_bytes passes a one-byte array, a tail of a [u8; BASE_10_LEN] "
     "buffer, or a chunk of chunks(BUF_SIZE) with BUF_SIZE equal to the buffer's array length. V2 flush: returns early iff end == 0, "
     "else write_all(&buf[..end]) (result unwrapped) and then end = 0; the sink is used only in flush and only via write_all. V3 Drop "
     "calls flush. V4 in the dev export write/write_char call flush after the payload, in the release export they do not. V5 end is "
